@@ -328,52 +328,69 @@ Definition st_bump (cap : nat) (st : capst) (c : str) : capst :=
 Lemma getc_st_bump cap st c x : getc (cc (st_bump cap st c)) x = bump (getc (cc st)) c x.
 Proof. unfold st_bump, getc, bump. cbn. rewrite dget_dset. destruct (str_eqb x c); reflexivity. Qed.
 
+(** a typing triple with a literal object raises AttributeError exactly in
+    all_classes_mode (with target classes the wrapped strategy rejects it
+    before anything dereferences [.iri]), with or without a cap *)
+Definition lit_err (tau : str) (m : tmode) (t : triple) : bool :=
+  str_eqb (tp t) tau && negb (is_node (to t)) && match m with TAll => true | TClasses _ => false end.
+
+Definition bad (tau : str) (m : tmode) (g : graph) : bool := existsb (lit_err tau m) g.
+
+Lemma bad_TClasses tau l g : bad tau (TClasses l) g = false.
+Proof.
+  unfold bad. induction g as [|t g IH]; cbn [existsb]; [reflexivity|].
+  rewrite IH. unfold lit_err. rewrite andb_false_r. reflexivity.
+Qed.
+
+Lemma bad_spec tau m g :
+  bad tau m g = true <-> m = TAll /\ exists t, In t g /\ tp t = tau /\ is_node (to t) = false.
+Proof.
+  unfold bad. rewrite existsb_exists. split.
+  - intros [t [Ht H]]. unfold lit_err in H. apply andb_true_iff in H. destruct H as [H Hm].
+    apply andb_true_iff in H. destruct H as [H1 H2]. apply str_eqb_eq in H1. apply negb_true_iff in H2.
+    split; [destruct m; [reflexivity | discriminate] | exists t; auto].
+  - intros [-> [t [Ht [H1 H2]]]]. exists t. split; [exact Ht|]. unfold lit_err.
+    rewrite (proj2 (str_eqb_eq _ _) H1), H2. reflexivity.
+Qed.
+
 Lemma track_cap_step tau m cap nt t g d st : 0 < cap ->
   track_cap tau m cap nt (t :: g) d st =
-  if negb (str_eqb (tp t) tau) then track_cap tau m cap nt g d st
-  else match to t with
-       | OL _ _ => inr TEAttr
-       | ON _ =>
-         match typing_pair tau (scope_of m) t with
-         | Some mm =>
-           if Nat.ltb (getc (cc st) (snd mm)) cap then
-             let st' := st_bump cap st (snd mm) in
-             let d' := add_pair d mm in
-             match nt with
-             | Some n => if Nat.eqb (completed st') n then inl d' else track_cap tau m cap nt g d' st'
-             | None => track_cap tau m cap nt g d' st'
-             end
-           else track_cap tau m cap nt g d st
-         | None => track_cap tau m cap nt g d st
-         end
-       end.
+  match typing_pair tau (scope_of m) t with
+  | Some mm =>
+    if Nat.ltb (getc (cc st) (snd mm)) cap then
+      let st' := st_bump cap st (snd mm) in
+      let d' := add_pair d mm in
+      match nt with
+      | Some n => if Nat.eqb (completed st') n then inl d' else track_cap tau m cap nt g d' st'
+      | None => track_cap tau m cap nt g d' st'
+      end
+    else track_cap tau m cap nt g d st
+  | None => if lit_err tau m t then inr TEAttr else track_cap tau m cap nt g d st
+  end.
 Proof.
-  intros Hcap. cbn [track_cap]. unfold cap_allows, relevant, typing_pair, st_bump, add_pair, getc.
-  destruct (str_eqb (tp t) tau); cbn [negb andb]; [|destruct m; reflexivity].
-  destruct (to t) as [[k c]|]; [|reflexivity]. cbn [nid nk fst snd].
+  intros Hcap. cbn [track_cap]. unfold cap_allows, relevant, typing_pair, lit_err, st_bump, add_pair, getc.
   assert (L0 : Nat.ltb 0 cap = true) by (apply Nat.ltb_lt; exact Hcap).
+  destruct (str_eqb (tp t) tau); cbn [negb andb]; [|destruct (to t); reflexivity].
+  destruct (to t) as [[k c]|]; cbn [nid nk fst snd is_node negb andb]; [|destruct m; reflexivity].
   destruct m as [|l]; cbn [scope_of in_scope nid nk nkind_eqb andb fst snd].
   - destruct (dget (cc st) c) as [n|]; cbn beta iota; [destruct (Nat.ltb n cap)|rewrite L0]; destruct nt; reflexivity.
-  - destruct k; cbn [nkind_eqb andb].
-    + destruct (mem_str c l); cbn [fst snd];
-        (destruct (dget (cc st) c) as [n|]; cbn beta iota; [destruct (Nat.ltb n cap)|rewrite ?L0]);
-        destruct nt; reflexivity.
-    + destruct (dget (cc st) c) as [n|]; [destruct (Nat.ltb n cap)|]; reflexivity.
+  - destruct k; cbn [nkind_eqb andb]; [|reflexivity].
+    destruct (mem_str c l); cbn [fst snd]; [|reflexivity].
+    destruct (dget (cc st) c) as [n|]; cbn beta iota; [destruct (Nat.ltb n cap)|rewrite ?L0]; destruct nt; reflexivity.
 Qed.
 
 Lemma track_plain_step tau m t g d :
   track_plain tau m (t :: g) d =
   match typing_pair tau (scope_of m) t with
   | Some mm => track_plain tau m g (add_pair d mm)
-  | None => if str_eqb (tp t) tau && negb (is_node (to t)) && match m with TAll => true | _ => false end
-            then inr TEAttr else track_plain tau m g d
+  | None => if lit_err tau m t then inr TEAttr else track_plain tau m g d
   end.
 Proof.
-  cbn [track_plain]. unfold relevant, typing_pair, annotate, add_pair.
+  cbn [track_plain]. unfold relevant, typing_pair, annotate, add_pair, lit_err.
   destruct (str_eqb (tp t) tau); cbn [andb]; [|destruct (to t); reflexivity].
   destruct m as [|l]; cbn [scope_of in_scope].
   - destruct (to t); reflexivity.
-  - destruct (to t) as [[k c]|]; [|reflexivity]. cbn [nid nk].
+  - destruct (to t) as [[k c]|]; [|reflexivity]. cbn [nid nk is_node negb andb].
     destruct k; cbn [nkind_eqb andb]; [destruct (mem_str c l)|]; reflexivity.
 Qed.
 
@@ -382,6 +399,18 @@ Proof. intros H. unfold typing_pair. rewrite H. destruct (to t); reflexivity. Qe
 
 Lemma typing_pair_literal tau sc t : is_node (to t) = false -> typing_pair tau sc t = None.
 Proof. unfold typing_pair. destruct (to t); [discriminate | reflexivity]. Qed.
+
+Lemma lit_err_no_pair tau m sc t : lit_err tau m t = true -> typing_pair tau sc t = None.
+Proof.
+  unfold lit_err. intros H. apply andb_true_iff in H. destruct H as [H _]. apply andb_true_iff in H.
+  destruct H as [_ H]. apply negb_true_iff in H. apply typing_pair_literal. exact H.
+Qed.
+
+Lemma pair_no_lit_err tau m sc t mm : typing_pair tau sc t = Some mm -> lit_err tau m t = false.
+Proof.
+  intros H. destruct (lit_err tau m t) eqn:E; [|reflexivity].
+  rewrite (lit_err_no_pair _ _ sc _ E) in H. discriminate.
+Qed.
 
 (** ** the early stop of pure target_classes mode *)
 
@@ -430,114 +459,69 @@ Qed.
 Lemma build_cons mm ms d : build (mm :: ms) d = build ms (add_pair d mm).
 Proof. reflexivity. Qed.
 
-(** ** what the capped tracker returns *)
+(** ** what the trackers return *)
+
+(** the capped tracker: AttributeError iff [bad], otherwise the dictionary of
+    the memberships the cap keeps -- with or without the early stop *)
+Lemma track_cap_eq tau m cap nt : 0 < cap -> forall g d st,
+  nt_ok m cap nt st ->
+  track_cap tau m cap nt g d st =
+  if bad tau m g then inr TEAttr
+  else inl (build (cap_filter cap (getc (cc st)) (memberships tau (scope_of m) g)) d).
+Proof.
+  intros Hcap. induction g as [|t g IH]; intros d st Hok; [reflexivity|].
+  rewrite track_cap_step by exact Hcap. unfold bad. cbn [memberships existsb]. fold (bad tau m g).
+  destruct (typing_pair tau (scope_of m) t) as [mm|] eqn:Etp.
+  2:{ destruct (lit_err tau m t); [reflexivity | apply IH; exact Hok]. }
+  rewrite (pair_no_lit_err _ m _ _ _ Etp). cbn [orb cap_filter].
+  destruct (Nat.ltb (getc (cc st) (snd mm)) cap) eqn:Elt; [|apply IH; exact Hok].
+  rewrite build_cons. cbn zeta.
+  rewrite (cap_filter_ext cap _ _ (getc (cc (st_bump cap st (snd mm))))) by (intros x; symmetry; apply getc_st_bump).
+  destruct nt as [n|]; [|apply IH; constructor].
+  destruct Hok as [l [Hm [Hn Hinv]]]. subst m n. cbn [scope_of] in *.
+  assert (Hin : In (snd mm) l).
+  { apply (memberships_scope tau l [t]). cbn. rewrite Etp. left; reflexivity. }
+  assert (Hinv' : stop_inv l cap (st_bump cap st (snd mm))).
+  { apply stop_inv_bump; [exact Hin | apply Nat.ltb_lt; exact Elt | exact Hinv]. }
+  destruct (Nat.eqb (completed (st_bump cap st (snd mm))) (List.length l)) eqn:Estop.
+  - rewrite bad_TClasses. rewrite cap_filter_full; [reflexivity|].
+    intros x Hx. apply memberships_scope in Hx. apply Nat.eqb_eq in Estop.
+    rewrite (stop_all_full l cap _ Hinv' Estop _ Hx). lia.
+  - apply IH. exists l. auto.
+Qed.
+
+Lemma track_plain_eq tau m : forall g d,
+  track_plain tau m g d =
+  if bad tau m g then inr TEAttr else inl (build (memberships tau (scope_of m) g) d).
+Proof.
+  induction g as [|t g IH]; intros d; [reflexivity|].
+  rewrite track_plain_step. unfold bad. cbn [memberships existsb]. fold (bad tau m g).
+  destruct (typing_pair tau (scope_of m) t) as [mm|] eqn:Etp.
+  - rewrite (pair_no_lit_err _ m _ _ _ Etp). cbn [orb]. rewrite build_cons. apply IH.
+  - destruct (lit_err tau m t); [reflexivity | apply IH].
+Qed.
 
 Lemma track_cap_char tau m cap nt : 0 < cap -> forall g d st I,
   nt_ok m cap nt st ->
   track_cap tau m cap nt g d st = inl I ->
   I = build (cap_filter cap (getc (cc st)) (memberships tau (scope_of m) g)) d.
 Proof.
-  intros Hcap. induction g as [|t g IH]; intros d st I Hok H.
-  - cbn in H. inversion H. reflexivity.
-  - rewrite track_cap_step in H by exact Hcap. cbn [memberships].
-    destruct (str_eqb (tp t) tau) eqn:Etau; cbn [negb] in H.
-    2:{ rewrite typing_pair_not_tau by exact Etau. apply IH; assumption. }
-    destruct (to t) as [o|] eqn:Eo; [|discriminate].
-    destruct (typing_pair tau (scope_of m) t) as [mm|] eqn:Etp; [|apply IH; assumption].
-    cbn [cap_filter]. destruct (Nat.ltb (getc (cc st) (snd mm)) cap) eqn:Elt; [|apply IH; assumption].
-    rewrite build_cons. cbn zeta in H.
-    rewrite (cap_filter_ext cap _ _ (getc (cc (st_bump cap st (snd mm))))) by (intros x; symmetry; apply getc_st_bump).
-    destruct nt as [n|]; [|apply IH; [constructor | exact H]].
-    destruct Hok as [l [Hm [Hn Hinv]]]. subst m n. cbn [scope_of] in *.
-    assert (Hin : In (snd mm) l).
-    { apply (memberships_scope tau l [t]). cbn. rewrite Etp. left; reflexivity. }
-    assert (Hinv' : stop_inv l cap (st_bump cap st (snd mm))).
-    { apply stop_inv_bump; [exact Hin | apply Nat.ltb_lt; exact Elt | exact Hinv]. }
-    destruct (Nat.eqb (completed (st_bump cap st (snd mm))) (List.length l)) eqn:Estop.
-    + inversion H; subst I. rewrite cap_filter_full; [reflexivity|].
-      intros x Hx. apply memberships_scope in Hx. apply Nat.eqb_eq in Estop.
-      rewrite (stop_all_full l cap _ Hinv' Estop _ Hx). lia.
-    + apply IH; [|exact H]. exists l. auto.
+  intros Hcap g d st I Hok H. rewrite (track_cap_eq _ _ _ _ Hcap _ _ _ Hok) in H.
+  destruct (bad tau m g); [discriminate | congruence].
 Qed.
-
-Lemma tau_ok_cons tau t g : tau_ok tau (t :: g) -> tau_ok tau g.
-Proof. intros H x Hx. apply H. right; exact Hx. Qed.
-
-(** with node objects on every typing triple the capped tracker never raises *)
-Lemma track_cap_total tau m cap nt : 0 < cap -> forall g d st,
-  tau_ok tau g -> exists I, track_cap tau m cap nt g d st = inl I.
-Proof.
-  intros Hcap. induction g as [|t g IH]; intros d st Hok.
-  - exists d. reflexivity.
-  - rewrite track_cap_step by exact Hcap. pose proof (tau_ok_cons _ _ _ Hok) as Hok'.
-    destruct (str_eqb (tp t) tau) eqn:Etau; cbn [negb]; [|apply IH; exact Hok'].
-    assert (Hn : is_node (to t) = true) by (apply Hok; [left; reflexivity | apply str_eqb_eq; exact Etau]).
-    destruct (to t) as [o|]; [|discriminate].
-    destruct (typing_pair tau (scope_of m) t) as [mm|]; [|apply IH; exact Hok'].
-    destruct (Nat.ltb (getc (cc st) (snd mm)) cap); [|apply IH; exact Hok'].
-    cbn zeta. destruct nt as [n|]; [|apply IH; exact Hok'].
-    destruct (Nat.eqb _ n); [eexists; reflexivity | apply IH; exact Hok'].
-Qed.
-
-(** the no-stop variant returning normally means every typing triple had a node object *)
-Lemma track_cap_none_tau_ok tau m cap : 0 < cap -> forall g d st I,
-  track_cap tau m cap None g d st = inl I -> tau_ok tau g.
-Proof.
-  intros Hcap. induction g as [|t g IH]; intros d st I H; [intros x []|].
-  rewrite track_cap_step in H by exact Hcap.
-  assert (Hrest : (exists d' st', track_cap tau m cap None g d' st' = inl I) ->
-                  (tp t = tau -> is_node (to t) = true) -> tau_ok tau (t :: g)).
-  { intros [d' [st' H']] Ht x [Hx|Hx]; [subst x; exact Ht | apply (IH d' st' I H' x Hx)]. }
-  destruct (str_eqb (tp t) tau) eqn:Etau; cbn [negb] in H.
-  2:{ apply Hrest; [eauto|]. intros E. apply str_eqb_neq in Etau. contradiction. }
-  destruct (to t) as [o|]; [|discriminate].
-  destruct (typing_pair tau (scope_of m) t) as [mm|]; [|apply Hrest; eauto].
-  destruct (Nat.ltb (getc (cc st) (snd mm)) cap); apply Hrest; eauto.
-Qed.
-
-(** the early stop skips only triples the non-stopping variant would reject *)
-Lemma track_cap_stop_eq tau l cap g : 0 < cap -> tau_ok tau g ->
-  track_cap tau (TClasses l) cap (Some (List.length l)) g [] {| cc := []; completed := 0 |}
-  = track_cap tau (TClasses l) cap None g [] {| cc := []; completed := 0 |}.
-Proof.
-  intros Hcap Hok.
-  destruct (track_cap_total tau (TClasses l) cap (Some (List.length l)) Hcap g [] {| cc := []; completed := 0 |} Hok) as [I1 H1].
-  destruct (track_cap_total tau (TClasses l) cap None Hcap g [] {| cc := []; completed := 0 |} Hok) as [I2 H2].
-  rewrite H1, H2. f_equal.
-  apply track_cap_char in H1; [|exact Hcap|].
-  - apply track_cap_char in H2; [|exact Hcap | constructor]. congruence.
-  - exists l. split; [reflexivity|]. split; [reflexivity|]. exists []. cbn. split; [constructor|]. split; [reflexivity | intros c []].
-Qed.
-
-(** without any hypothesis on the graph: whatever the non-stopping variant returns, the stopping one returns too *)
-Lemma track_cap_stop_sound tau l cap g I : 0 < cap ->
-  track_cap tau (TClasses l) cap None g [] {| cc := []; completed := 0 |} = inl I ->
-  track_cap tau (TClasses l) cap (Some (List.length l)) g [] {| cc := []; completed := 0 |} = inl I.
-Proof.
-  intros Hcap H. pose proof (track_cap_none_tau_ok _ _ _ Hcap _ _ _ _ H) as Hok.
-  rewrite track_cap_stop_eq; assumption.
-Qed.
-
-(** ** the plain tracker *)
 
 Lemma track_plain_char tau m : forall g d I,
   track_plain tau m g d = inl I -> I = build (memberships tau (scope_of m) g) d.
-Proof.
-  induction g as [|t g IH]; intros d I H.
-  - cbn in H. inversion H. reflexivity.
-  - rewrite track_plain_step in H. cbn [memberships].
-    destruct (typing_pair tau (scope_of m) t) as [mm|]; [rewrite build_cons; apply IH; exact H|].
-    destruct (str_eqb (tp t) tau && negb (is_node (to t)) && match m with TAll => true | _ => false end);
-      [discriminate | apply IH; exact H].
-Qed.
+Proof. intros g d I H. rewrite track_plain_eq in H. destruct (bad tau m g); [discriminate | congruence]. Qed.
 
-Lemma track_plain_total tau m : forall g d, tau_ok tau g -> exists I, track_plain tau m g d = inl I.
+(** the early stop skips only triples the non-stopping variant would reject: no hypothesis *)
+Lemma track_cap_stop_eq tau l cap g : 0 < cap ->
+  track_cap tau (TClasses l) cap (Some (List.length l)) g [] {| cc := []; completed := 0 |}
+  = track_cap tau (TClasses l) cap None g [] {| cc := []; completed := 0 |}.
 Proof.
-  induction g as [|t g IH]; intros d Hok; [exists d; reflexivity|].
-  rewrite track_plain_step. pose proof (tau_ok_cons _ _ _ Hok) as Hok'.
-  destruct (typing_pair tau (scope_of m) t) as [mm|]; [apply IH; exact Hok'|].
-  destruct (str_eqb (tp t) tau) eqn:Etau; cbn [andb]; [|apply IH; exact Hok'].
-  rewrite (Hok t (or_introl eq_refl)) by (apply str_eqb_eq; exact Etau). cbn. apply IH; exact Hok'.
+  intros Hcap. rewrite !track_cap_eq; [reflexivity | exact Hcap | constructor | exact Hcap |].
+  exists l. split; [reflexivity|]. split; [reflexivity|]. exists []. cbn. split; [constructor|].
+  split; [reflexivity | intros c []].
 Qed.
 
 (** ** [track] *)
@@ -564,6 +548,33 @@ Proof. intros H. unfold track. destruct (Z.leb_spec k 0); [reflexivity | lia]. Q
 (** the default of [Shaper(instances_cap=...)] means "no cap" *)
 Lemma default_no_cap tau m g : track tau m dflt_instances_cap g = track_plain tau m g [].
 Proof. apply track_nonpos. unfold dflt_instances_cap. lia. Qed.
+
+(** [track] in one equation, for every cap *)
+Lemma track_eq tau m k g :
+  track tau m k g =
+  if bad tau m g then inr TEAttr
+  else inl (build (if (k <=? 0)%Z then memberships tau (scope_of m) g
+                   else cap_filter (Z.to_nat k) (fun _ => 0) (memberships tau (scope_of m) g)) []).
+Proof.
+  destruct (Z.leb_spec k 0).
+  - rewrite track_nonpos by assumption. apply track_plain_eq.
+  - rewrite track_pos by assumption. rewrite track_cap_eq; [|lia | apply nt_ok_init].
+    destruct (bad tau m g); [reflexivity|].
+    rewrite (cap_filter_ext _ _ _ (fun _ => 0)) by (intros x; reflexivity). reflexivity.
+Qed.
+
+(** it raises (always AttributeError) exactly when, in all_classes_mode, some
+    typing triple has a literal object: the same with and without a cap *)
+Lemma track_err_iff tau m k g e :
+  track tau m k g = inr e <->
+  e = TEAttr /\ m = TAll /\ exists t, In t g /\ tp t = tau /\ is_node (to t) = false.
+Proof.
+  rewrite track_eq. rewrite <- bad_spec. destruct (bad tau m g); split.
+  - intros H. injection H as <-. auto.
+  - intros [-> _]. reflexivity.
+  - discriminate.
+  - intros [_ H]. discriminate.
+Qed.
 
 (** the memberships the cap keeps, as the Spec states them *)
 Definition kept (tau : str) (sc : scope) (k : nat) (g : graph) (mm : str * str) : bool :=
@@ -628,60 +639,53 @@ Proof.
   rewrite (Permutation_length Hperm). rewrite first_k_NoDup by exact Hnd. apply firstn_length.
 Qed.
 
-(** (cap2) cap k on the document = no cap on the restricted document *)
+Lemma existsb_filter_keep {A} (f k : A -> bool) l :
+  (forall x, f x = true -> k x = true) -> existsb f (filter k l) = existsb f l.
+Proof.
+  intros H. induction l as [|a l IH]; cbn; [reflexivity|].
+  destruct (k a) eqn:E; cbn; rewrite IH; [reflexivity|].
+  destruct (f a) eqn:F; [rewrite (H a F) in E; discriminate | reflexivity].
+Qed.
+
+Lemma bad_restrict tau m k g : bad tau m (restrict_typing tau (scope_of m) k g) = bad tau m g.
+Proof.
+  unfold bad, restrict_typing. apply existsb_filter_keep. intros t Ht.
+  unfold keep_typing. rewrite (lit_err_no_pair _ _ (scope_of m) _ Ht). reflexivity.
+Qed.
+
+(** (cap2) cap k on the document = no cap on the restricted document; no
+    hypothesis on literals: both sides raise in the same cases *)
 Lemma cap_is_restriction tau m k g z : (0 < k)%Z -> (z <= 0)%Z ->
-  NoDup (memberships tau (scope_of m) g) -> tau_ok tau g ->
+  NoDup (memberships tau (scope_of m) g) ->
   track tau m k g = track tau m z (restrict_typing tau (scope_of m) (Z.to_nat k) g).
 Proof.
-  intros Hk Hz Hnd Hok.
-  assert (Hok' : tau_ok tau (restrict_typing tau (scope_of m) (Z.to_nat k) g)).
-  { intros t Ht. apply filter_In in Ht. apply Hok. tauto. }
-  rewrite (track_nonpos _ _ z) by exact Hz.
-  destruct (track_plain_total tau m _ [] Hok') as [I2 H2].
-  assert (H1' : exists I1, track tau m k g = inl I1).
-  { rewrite track_pos by exact Hk. apply track_cap_total; [lia | exact Hok]. }
-  destruct H1' as [I1 H1]. rewrite H1, H2. f_equal.
-  apply track_cap_is_build in H1; [|exact Hk | exact Hnd].
-  apply track_plain_char in H2. rewrite H1, H2. f_equal.
+  intros Hk Hz Hnd. rewrite !track_eq, bad_restrict.
+  destruct (bad tau m g); [reflexivity|]. f_equal. f_equal.
+  destruct (Z.leb_spec k 0); [lia|]. destruct (Z.leb_spec z 0); [|lia].
+  rewrite cap_filter_kept by exact Hnd.
   unfold restrict_typing, keep_typing. symmetry.
   apply (memberships_filter tau (scope_of m) (kept tau (scope_of m) (Z.to_nat k) g)).
 Qed.
 
-(** (cap3) a cap not smaller than any class changes nothing (no NoDup needed) *)
-Lemma cap_large_id tau m k g z : (0 < k)%Z -> (z <= 0)%Z -> tau_ok tau g ->
+(** (cap3) a cap not smaller than any class changes nothing (no hypothesis on the graph at all) *)
+Lemma cap_large_id tau m k g z : (0 < k)%Z -> (z <= 0)%Z ->
   (forall c, List.length (class_subjects tau (scope_of m) g c) <= Z.to_nat k) ->
   track tau m k g = track tau m z g.
 Proof.
-  intros Hk Hz Hok Hbig. rewrite (track_nonpos _ _ z) by exact Hz.
-  destruct (track_plain_total tau m g [] Hok) as [I2 H2].
-  assert (H1' : exists I1, track tau m k g = inl I1).
-  { rewrite track_pos by exact Hk. apply track_cap_total; [lia | exact Hok]. }
-  destruct H1' as [I1 H1]. rewrite H1, H2. f_equal.
-  rewrite track_pos in H1 by exact Hk. apply track_cap_char in H1; [|lia | apply nt_ok_init].
-  apply track_plain_char in H2. rewrite H1, H2. f_equal.
-  apply cap_filter_id. intros c. rewrite getc_st0. apply Hbig.
+  intros Hk Hz Hbig. rewrite !track_eq. destruct (bad tau m g); [reflexivity|]. f_equal. f_equal.
+  destruct (Z.leb_spec k 0); [lia|]. destruct (Z.leb_spec z 0); [|lia].
+  apply cap_filter_id. intros c. apply Hbig.
 Qed.
 
-(** (cap3, one direction with no hypothesis on literals): a normal result under a large cap is the uncapped result *)
-Lemma cap_large_id_sound tau m k g z I : (0 < k)%Z -> (z <= 0)%Z ->
-  (forall c, List.length (class_subjects tau (scope_of m) g c) <= Z.to_nat k) ->
-  track tau m z g = inl I -> track tau m k g = inl I \/ exists e, track tau m k g = inr e.
-Proof.
-  intros Hk Hz Hbig H2. destruct (track tau m k g) as [I1|e] eqn:H1; [left | right; eauto].
-  f_equal. rewrite track_pos in H1 by exact Hk. apply track_cap_char in H1; [|lia | apply nt_ok_init].
-  rewrite track_nonpos in H2 by exact Hz. apply track_plain_char in H2. rewrite H1, H2. f_equal.
-  apply cap_filter_id. intros c. rewrite getc_st0. apply Hbig.
-Qed.
-
-Lemma cap_large_is_default tau m k g : (0 < k)%Z -> tau_ok tau g ->
+Lemma cap_large_is_default tau m k g : (0 < k)%Z ->
   (forall c, List.length (class_subjects tau (scope_of m) g c) <= Z.to_nat k) ->
   track tau m k g = track tau m dflt_instances_cap g.
-Proof. intros Hk Hok Hbig. apply cap_large_id; [exact Hk | unfold dflt_instances_cap; lia | exact Hok | exact Hbig]. Qed.
+Proof. intros Hk Hbig. apply cap_large_id; [exact Hk | unfold dflt_instances_cap; lia | exact Hbig]. Qed.
 
 (** the two target modes: early stop or not, same result *)
-Lemma cap_stop_irrelevant tau l k g : (0 < k)%Z -> tau_ok tau g ->
+Lemma cap_stop_irrelevant tau l k g : (0 < k)%Z ->
   track tau (TClasses l) k g = track_cap tau (TClasses l) (Z.to_nat k) None g [] st0.
-Proof. intros Hk Hok. rewrite track_pos by exact Hk. apply track_cap_stop_eq; [lia | exact Hok]. Qed.
+Proof. intros Hk. rewrite track_pos by exact Hk. apply track_cap_stop_eq. lia. Qed.
 
 (** ** composition with the rest of the pipeline *)
 
@@ -718,20 +722,20 @@ Section RunComp.
   Qed.
 
   Lemma run_cap_is_restriction c thr g z : (0 < r_cap c)%Z -> (z <= 0)%Z ->
-    NoDup (memberships (r_tau c) (r_targets c) g) -> tau_ok (r_tau c) g ->
+    NoDup (memberships (r_tau c) (r_targets c) g) ->
     run_shexc fa c thr g =
     run_shexc2 fa (with_cap c z) thr (restrict_typing (r_tau c) (r_targets c) (Z.to_nat (r_cap c)) g) g.
   Proof.
-    intros Hk Hz Hnd Hok. rewrite run_shexc_is_run_shexc2. apply run_shexc2_track; [reflexivity|].
+    intros Hk Hz Hnd. rewrite run_shexc_is_run_shexc2. apply run_shexc2_track; [reflexivity|].
     cbn [with_cap r_cap r_tau]. replace (mode_of_cfg (with_cap c z)) with (mode_of_cfg c) by reflexivity.
     rewrite <- (scope_of_mode_of_cfg c) in *. apply cap_is_restriction; assumption.
   Qed.
 
-  Lemma run_cap_large_id c thr g z : (0 < r_cap c)%Z -> (z <= 0)%Z -> tau_ok (r_tau c) g ->
+  Lemma run_cap_large_id c thr g z : (0 < r_cap c)%Z -> (z <= 0)%Z ->
     (forall x, List.length (class_subjects (r_tau c) (r_targets c) g x) <= Z.to_nat (r_cap c)) ->
     run_shexc fa c thr g = run_shexc fa (with_cap c z) thr g.
   Proof.
-    intros Hk Hz Hok Hbig. rewrite !run_shexc_is_run_shexc2. apply run_shexc2_track; [reflexivity|].
+    intros Hk Hz Hbig. rewrite !run_shexc_is_run_shexc2. apply run_shexc2_track; [reflexivity|].
     cbn [with_cap r_cap r_tau]. replace (mode_of_cfg (with_cap c z)) with (mode_of_cfg c) by reflexivity.
     rewrite <- (scope_of_mode_of_cfg c) in *. apply cap_large_id; assumption.
   Qed.
@@ -866,14 +870,14 @@ Lemma cap_firstn_graph tau m k g I : (0 < k)%Z -> NoDup g -> ids_faithful g ->
     List.length (inst_of I c) = Nat.min (Z.to_nat k) (List.length (class_subjects tau (scope_of m) g c)).
 Proof. intros Hk Hnd Hf. apply cap_firstn; [exact Hk | apply memberships_NoDup; assumption]. Qed.
 
-Lemma cap_is_restriction_graph tau m k g z : (0 < k)%Z -> (z <= 0)%Z -> NoDup g -> ids_faithful g -> tau_ok tau g ->
+Lemma cap_is_restriction_graph tau m k g z : (0 < k)%Z -> (z <= 0)%Z -> NoDup g -> ids_faithful g ->
   track tau m k g = track tau m z (restrict_typing tau (scope_of m) (Z.to_nat k) g).
 Proof. intros Hk Hz Hnd Hf. apply cap_is_restriction; [exact Hk | exact Hz | apply memberships_NoDup; assumption]. Qed.
 
 Section RunCompGraph.
   Variable fa : FreqAlg.
   Lemma run_cap_is_restriction_graph c thr g z : (0 < r_cap c)%Z -> (z <= 0)%Z ->
-    NoDup g -> ids_faithful g -> tau_ok (r_tau c) g ->
+    NoDup g -> ids_faithful g ->
     run_shexc fa c thr g =
     run_shexc2 fa (with_cap c z) thr (restrict_typing (r_tau c) (r_targets c) (Z.to_nat (r_cap c)) g) g.
   Proof. intros Hk Hz Hnd Hf. apply run_cap_is_restriction; [exact Hk | exact Hz | apply memberships_NoDup; assumption]. Qed.
@@ -908,11 +912,11 @@ Section RunShapes.
   (** the shapes (before serialisation) with the cap = the shapes of the uncapped
       extraction with the restricted document as instance source *)
   Lemma run_shapes_cap_is_restriction c thr g z : (0 < r_cap c)%Z -> (z <= 0)%Z ->
-    NoDup g -> ids_faithful g -> tau_ok (r_tau c) g ->
+    NoDup g -> ids_faithful g ->
     run_shapes fa c thr g =
     run_shapes2 fa (with_cap c z) thr (restrict_typing (r_tau c) (r_targets c) (Z.to_nat (r_cap c)) g) g.
   Proof.
-    intros Hk Hz Hnd Hf Hok. rewrite run_shapes_is_run_shapes2. apply run_shapes2_track; [reflexivity|].
+    intros Hk Hz Hnd Hf. rewrite run_shapes_is_run_shapes2. apply run_shapes2_track; [reflexivity|].
     cbn [with_cap r_cap r_tau]. replace (mode_of_cfg (with_cap c z)) with (mode_of_cfg c) by reflexivity.
     rewrite <- (scope_of_mode_of_cfg c) in *. apply cap_is_restriction; try assumption.
     apply memberships_NoDup; assumption.
